@@ -2,13 +2,16 @@
 From L4 Require Import Common.Val Model.EnvExpand Proofs.EnvExpandSpec.
 Local Open Scope N_scope.
 
-(* case: ( site path env pattern alnum )
+(* case: ( site path env pattern more rolls alnum )
      path    list of code points (what expand_env_vars receives, minus the temp-root prefix)
      env     ( (name value) ... )  code point lists; the variables that are set
      alnum   the non-ASCII code points of the case that char::is_alphanumeric accepts
              (reported by the harness)
-   site and pattern are for the harness only.
-   result: ( model spec )  model = (1 codepoints) | "panic"; spec = codepoints (one-pass meaning) *)
+     more    further paths to expand with the same environment (the roller's archive names for
+             the indices 1 .. count-1)
+   site, pattern and rolls are for the harness only.
+   result: ( model spec ((model spec) ...) )  model = (1 codepoints) | "panic"; spec = codepoints
+   (one-pass meaning); the trailing list is for the paths of `more` *)
 Definition dec_str (v : vl) : option (list N) := val_list val_N v.
 
 Definition dec_pair (v : vl) : option (list N * list N) :=
@@ -21,14 +24,18 @@ Definition enc_str (s : list N) : vl := VL (map VN s).
 
 Definition c19_run (v : vl) : vl :=
   match v with
-  | VL [VN _; p; e; _; a] =>
-    match dec_str p, val_list dec_pair e, dec_str a with
-    | Some path, Some tbl, Some al =>
+  | VL [VN _; p; e; _; m; _; a] =>
+    match dec_str p, val_list dec_pair e, val_list dec_str m, dec_str a with
+    | Some path, Some tbl, Some more, Some al =>
       let ua := in_table al in
       let env := lookup tbl in
-      VL [ match expand ua env path with Ok s => VL [VN 1; enc_str s] | Panic => VS [112;97;110;105;99] end;
-           enc_str (expand_spec ua env path) ]
-    | _, _, _ => VBad
+      let enc_model q := match expand ua env q with
+                         | Ok s => VL [VN 1; enc_str s]
+                         | Panic => VS [112;97;110;105;99]
+                         end in
+      VL [ enc_model path; enc_str (expand_spec ua env path);
+           VL (map (fun q => VL [enc_model q; enc_str (expand_spec ua env q)]) more) ]
+    | _, _, _, _ => VBad
     end
   | _ => VBad
   end.
